@@ -1,7 +1,8 @@
 (* C01 -- notebook diff followed by patch reproduces the target notebook. *)
 From Coq Require Import List NArith.
 From NB Require Import Base.Res Base.Json Base.PyStr Diff.DiffFormat Diff.Patch Diff.GenericDiff Diff.Wf
-     Diff.StringProofs Diff.StringMaster Diff.NbProofs Diff.NbTotal Diff.C01Proofs Gen.NbConfig.
+     Diff.StringProofs Diff.StringMaster Diff.NbProofs Diff.NbTotal Diff.C01Proofs Diff.Codec Gen.NbConfig.
+From NB Require Extract.Api.
 Import ListNotations.
 
 (* cell sources (and every other string): line diff + flattened patch reproduce the target *)
@@ -50,3 +51,13 @@ Theorem notebook_diff_total_and_correct : forall O n a b,
             /\ (d = [] -> a = b).
 Proof. exact nb_total. Qed.
 Print Assumptions notebook_diff_total_and_correct.
+
+(* the function the correspondence check runs against nbdime (Extract/Api.v, extracted to OCaml) returns
+   {"ok": d} on notebook-shaped documents, with d patching a into b *)
+Theorem extracted_entry_point_returns : forall O a b,
+  opcodes_valid O -> wfj a = true -> wfj b = true -> sources_are_strings a = true ->
+  notebook_shaped a = true -> notebook_shaped b = true ->
+  exists d, Api.api_nbdiff O Api.nb_config a b = JObj [(Api.k_ok, enc_diff d)]
+            /\ (forall m, depth a < m -> patch m a d = Ok b).
+Proof. exact nb_api_total. Qed.
+Print Assumptions extracted_entry_point_returns.
